@@ -12,7 +12,7 @@ import (
 )
 
 func init() {
-	register("C02", "byte strings as lines: bounded-exhaustive token sequences over {@ : SP ! ; = \\ \\x01 A 1 # TAB U+0085 PRIVMSG NOTICE ACTION CTCP PING 001 :x} (all up to length 3, a seeded sample of lengths 4-6), random byte strings, and byte-level mutations of valid messages; each goes through the real ParseLine and the real Text/Target/Public under recover and through the model; a case is non-trivial when the parser accepts the line or the line exercises a special byte; distinct by input", c02)
+	register("C02", "hostile sessions (lines odd for the built-in handlers, each sent twice, then well-formed lines that need every lock they take: all must still be processed and the query API must return); byte strings as lines: bounded-exhaustive token sequences over {@ : SP ! ; = \\ \\x01 A 1 # TAB U+0085 PRIVMSG NOTICE ACTION CTCP PING 001 :x} (all up to length 3, a seeded sample of lengths 4-6), random byte strings, and byte-level mutations of valid messages; each goes through the real ParseLine and the real Text/Target/Public under recover and through the model; a case is non-trivial when the parser accepts the line or the line exercises a special byte; distinct by input", c02)
 }
 
 var c02Tokens = []string{"@", ":", " ", "!", ";", "=", "\\", "\x01", "A", "1", "#", "\t", "\xc2\x85", "PRIVMSG", "NOTICE", "ACTION", "CTCP", "PING", "001", ":x", " :"}
@@ -216,6 +216,7 @@ func c02Stream(c *Ctx, inputs []string) {
 }
 
 func c02(c *Ctx) {
+	trackedStage(c, "C02")
 	inputs := c02Inputs(c)
 	c02Stream(c, inputs)
 	for i := 0; i < len(inputs); i += 20000 {
